@@ -9,3 +9,5 @@ def register(add):
     add('try1', ['C19'], 'vc_try1', **base)
     add('try3', ['C19'], 'vc_try3', **base)
     add('try2_throw', ['C19'], 'vc_try2_throw', expect=('assertion',), **base)
+    add('try2_swallow', ['C19'], 'vc_try2_swallow', **base)
+    add('try2_rethrow', ['C19'], 'vc_try2_rethrow', expect=('assertion',), **base)
